@@ -172,18 +172,16 @@ func (ch *Channel) runWriter(writerTerminate chan struct{}) error {
 	for {
 		select {
 		case what := <-ch.chWrite:
+			// a write error (a message that cannot be encoded for this link or
+			// a transport error) must not stop the writer, otherwise the channel
+			// stays open but silently discards every further message.
+			// a broken transport is detected by the reader, that closes the channel.
 			switch wh := what.(type) {
 			case message.Message:
-				err := ch.streamWriter.Write(wh)
-				if err != nil {
-					return err
-				}
+				ch.streamWriter.Write(wh) //nolint:errcheck
 
 			case frame.Frame:
-				err := ch.frameWriter.Write(wh)
-				if err != nil {
-					return err
-				}
+				ch.frameWriter.Write(wh) //nolint:errcheck
 			}
 
 		case <-writerTerminate:
